@@ -271,10 +271,17 @@ def _hist_call(pr, v, e, op, eidx):
     k = op[0]
     try:
         if k == "R":
-            ok, cert = pr.is_realizable(max_states=op[1], max_depth=op[2])
+            # keyword and positional call forms alternate (deterministically from the bounds): a parameter inserted in front of
+            # max_states / max_depth would only show through positional callers
+            if op[1] is not None and op[2] is not None and (op[1] + op[2]) % 2:
+                ok, cert = pr.is_realizable(op[1], op[2])
+            elif op[1] is not None and op[2] is None and op[1] % 2:
+                ok, cert = pr.is_realizable(op[1])
+            else:
+                ok, cert = pr.is_realizable(max_states=op[1], max_depth=op[2])
             return [1, bool(ok), [] if cert is None else [[eidx[t] for t in cert]]], (ok, cert)
         if k == "S":
-            ok, kk = pr.is_scaled_realizable(k_max=op[1])
+            ok, kk = pr.is_scaled_realizable(op[1]) if op[1] % 2 else pr.is_scaled_realizable(k_max=op[1])
             return [2, bool(ok), 0 if kk is None else int(kk)], (ok, kk)
         if k == "C":
             cert = pr.certificate
@@ -284,6 +291,11 @@ def _hist_call(pr, v, e, op, eidx):
             return [4], None
         if k == "L":
             pr.load_hypergraph_and_flow(v, e, {e_: f_ for e_, f_ in op[1]})
+            return [4], None
+        if k == "FB":                       # the caller edits pr.flow IN PLACE (same keys) and rebuilds
+            for e_, f_ in op[1]:
+                pr.flow[e_] = f_
+            pr.build_petri_net_from_flow()
             return [4], None
         if k == "W":
             ok, b = pr.is_borrow_realizable(max_borrow_each=op[1])
@@ -301,6 +313,11 @@ def _impl_hist(case):
     out = []
     for op in case["ops"]:
         ans, _ = _hist_call(pr, v, e, op, eidx)
+        if op[0] == "FB":
+            # in the model an in-place flow edit followed by a rebuild is [OpLoad fl; OpBuild]; only the state after the rebuild is
+            # observable, the entry for the intermediate model state is written down as the model defines it
+            fl_ = {e_: f_ for e_, f_ in op[1]}
+            out.append([[4], [[int(fl_.get(eid, 0)) for eid in eids], [], []]])
         if pr._petri is None:
             built = []
         else:
@@ -353,7 +370,70 @@ def _ana_apply(H, ids, net, stage):
         net["iso"] = [z for z in net["iso"] if z not in occ]
 
 
-def _ana_apply_snapshot(net, stage):
+def _ana_apply_graph(G, st, net, stage):
+    """the same edit stages on a CALLER-SUPPLIED bipartite DiGraph, in place; st: dict(s=label->node, r=[reaction nodes], n=counter,
+    integer=bool).  Orphaned species stay in the graph as isolated nodes (nothing prunes a caller's graph)."""
+    def snode(sp):
+        if sp not in st["s"]:
+            st["n"] += 1
+            nid = 1000 + 7 * st["n"] if st["integer"] else "S:late:%s" % sp
+            G.add_node(nid, kind="species", label=sp, bipartite=0)
+            st["s"][sp] = nid
+        return st["s"][sp]
+
+    def wire(rn, l, r):
+        for sp, c in l:
+            G.add_edge(snode(sp), rn, stoich=c, role="reactant")
+        for sp, c in r:
+            G.add_edge(rn, snode(sp), stoich=c, role="product")
+    for op in stage:
+        before = set(_ana_species(net))
+        k = op[0]
+        if k == "add":
+            st["n"] += 1
+            rn = 2000 + 7 * st["n"] if st["integer"] else "R:late_%d" % st["n"]
+            G.add_node(rn, kind="reaction", label="r", bipartite=1)
+            st["r"].append(rn)
+            wire(rn, op[1], op[2])
+            net["rxns"].append([[list(x) for x in op[1]], [list(x) for x in op[2]]])
+        elif k == "rep":
+            rn = st["r"][op[1]]
+            for u, v in list(G.in_edges(rn)) + list(G.out_edges(rn)):
+                G.remove_edge(u, v)
+            wire(rn, op[2], op[3])
+            net["rxns"][op[1]] = [[list(x) for x in op[2]], [list(x) for x in op[3]]]
+        elif k == "coef":
+            rn = st["r"][op[1]]
+            u, v = (st["s"][op[3]], rn) if op[2] == "l" else (rn, st["s"][op[3]])
+            G[u][v]["stoich"] = op[4]
+            for x in net["rxns"][op[1]][0 if op[2] == "l" else 1]:
+                if x[0] == op[3]:
+                    x[1] = op[4]
+        elif k == "rmsp":
+            sn = st["s"][op[1]]
+            for u, v in list(G.in_edges(sn)) + list(G.out_edges(sn)):
+                G.remove_edge(u, v)
+            for rx in net["rxns"]:
+                rx[0] = [x for x in rx[0] if x[0] != op[1]]
+                rx[1] = [x for x in rx[1] if x[0] != op[1]]
+        else:
+            raise AssertionError(op)
+        occ = {s_ for l, r in net["rxns"] for s_, c in l + r if c > 0}
+        net["iso"] = sorted((before | set(net["iso"])) - occ)
+
+
+def _graph_network(G):
+    """(sorted reactions, sorted species labels) read off a bipartite DiGraph"""
+    rx = []
+    for u, d in G.nodes(data=True):
+        if d.get("kind") == "reaction":
+            l = sorted((G.nodes[a]["label"], e["stoich"]) for a, _, e in G.in_edges(u, data=True))
+            r = sorted((G.nodes[b]["label"], e["stoich"]) for _, b, e in G.out_edges(u, data=True))
+            rx.append((l, r))
+    return sorted(rx), sorted(d["label"] for _, d in G.nodes(data=True) if d.get("kind") == "species")
+
+
+def _ana_apply_snapshot(net, stage, keep_orphans=False):
     """the predicted effect of an edit stage on the snapshot alone (used by the encoder; _ana_apply does the same next to the
     real hypergraph and the oracle compares the two)"""
     class _Edge:
@@ -375,20 +455,68 @@ def _ana_apply_snapshot(net, stage):
         def remove_species(self, sp, prune_orphans=True):
             pass
     import collections
+    if keep_orphans:
+        import networkx as nx
+
+        class _AnyDict(dict):
+            def __missing__(self, key):
+                return key
+        G = nx.DiGraph()
+        for l, r in net["rxns"]:
+            pass
+        # replay on a throw-away graph built from the snapshot (only the snapshot matters)
+        st = dict(s={}, r=[], n=0, integer=False)
+        for sp in _ana_species(net):
+            G.add_node("S:" + sp, kind="species", label=sp, bipartite=0)
+            st["s"][sp] = "S:" + sp
+        for i, (l, r) in enumerate(net["rxns"]):
+            rn = "R:%d" % i
+            G.add_node(rn, kind="reaction", label="r", bipartite=1)
+            st["r"].append(rn)
+            for sp, c in l:
+                if c > 0:
+                    G.add_edge(st["s"][sp], rn, stoich=c, role="reactant")
+            for sp, c in r:
+                if c > 0:
+                    G.add_edge(rn, st["s"][sp], stoich=c, role="product")
+        _ana_apply_graph(G, st, net, stage)
+        return
     _ana_apply(_FakeH(), [None] * (len(net["rxns"]) + len(stage)), net, stage)
 
 
 def _ana_replay(case):
     """runs the analyzer history; yields per call (op, answer kind, analyzer, current network snapshot, snapshot at the
-    last successful compute)"""
+    last successful compute, the analysed object).  gmode "bip": the analyzer is given a bipartite DiGraph (species nodes
+    inserted in shuffled order, integer or string ids) which the caller then edits in place."""
     import copy
+    import random
     from synkit.CRN.Hypergraph.hypergraph import CRNHyperGraph
     from synkit.CRN.Petri.analyzer import PetriAnalyzer
     H = CRNHyperGraph()
     ids = []
     net = dict(rxns=[], iso=[])
     _ana_apply(H, ids, net, [["add", l, r] for l, r in case["stages"][0]])
-    an = PetriAnalyzer(H, max_siphon_size=case.get("k"))
+    graph = case.get("gmode") == "bip"
+    if graph:
+        import networkx as nx
+        from synkit.CRN.Hypergraph.conversion import hypergraph_to_bipartite
+        integer = bool(case.get("gseed", 0) % 2)
+        G0 = hypergraph_to_bipartite(H, integer_ids=integer)
+        sp = [u for u, d in G0.nodes(data=True) if d.get("kind") == "species"]
+        rn = [u for u, d in G0.nodes(data=True) if d.get("kind") == "reaction"]
+        random.Random(case.get("gseed", 0)).shuffle(sp)
+        obj = nx.DiGraph()
+        for u in sp[:len(sp) // 2] + rn + sp[len(sp) // 2:]:
+            obj.add_node(u, **G0.nodes[u])
+        for u, v, d in G0.edges(data=True):
+            obj.add_edge(u, v, **d)
+        # reaction nodes in the order of the stage-0 reactions (edge ids r_1, r_2, ... sort like the insertion order below 10)
+        byid = dict(zip(sorted(H.edges), rn))
+        gst = dict(s={d["label"]: u for u, d in obj.nodes(data=True) if d.get("kind") == "species"}, r=[byid[i] for i in ids],
+                   n=0, integer=integer)
+    else:
+        obj = H
+    an = PetriAnalyzer(obj, max_siphon_size=case.get("k"))
     nxt = 1
     computed = None
     for op in case["ops"]:
@@ -396,16 +524,20 @@ def _ana_replay(case):
             try:
                 an.compute_siphons_traps()
                 computed = copy.deepcopy(net)
-                yield op, "done", an, copy.deepcopy(net), computed, H
+                yield op, "done", an, copy.deepcopy(net), computed, obj
             except ValueError:
-                yield op, "err", an, copy.deepcopy(net), computed, H
+                yield op, "err", an, copy.deepcopy(net), computed, obj
         elif op == "R":
-            yield op, "read", an, copy.deepcopy(net), computed, H
+            yield op, "read", an, copy.deepcopy(net), computed, obj
         elif op == "E":
             st = case["stages"][nxt]
-            _ana_apply(H, ids, net, st if (st and isinstance(st[0][0], str)) else [["add", l, r] for l, r in st])
+            st = st if (st and isinstance(st[0][0], str)) else [["add", l, r] for l, r in st]
+            if graph:
+                _ana_apply_graph(obj, gst, net, st)
+            else:
+                _ana_apply(H, ids, net, st)
             nxt += 1
-            yield op, "done", an, copy.deepcopy(net), computed, H
+            yield op, "done", an, copy.deepcopy(net), computed, obj
 
 
 def _impl_ana(case):
@@ -510,7 +642,8 @@ def coq_case(case):
                 ops.append("AnRead")
             else:
                 st = case["stages"][nxt]
-                _ana_apply_snapshot(net, st if (st and isinstance(st[0][0], str)) else [["add", l, r] for l, r in st])
+                _ana_apply_snapshot(net, st if (st and isinstance(st[0][0], str)) else [["add", l, r] for l, r in st],
+                                    keep_orphans=case.get("gmode") == "bip")
                 nxt += 1
                 ops.append("AnEdit %s" % cnetw(net))
         k = case.get("k")
@@ -539,6 +672,9 @@ def coq_case(case):
                 ops.append("OpBuild")
             elif k == "L":
                 ops.append("OpLoad %s" % cflow(op[1]))
+            elif k == "FB":
+                ops.append("OpLoad %s" % cflow(op[1]))
+                ops.append("OpBuild")
             elif k == "W":
                 ops.append("OpBorrow %s" % cnat(op[1]))
         return "run_hist %s %s %s %s" % (clist([cN(rank[s]) for s in case["vertices"]]), ed, cflow(case["flow"]),
@@ -816,7 +952,7 @@ def _oracle_hist(case):
     for i, op in enumerate(case["ops"]):
         k = op[0]
         ans, raw = _hist_call(pr, v, e, op, eidx)
-        want_flow = {e_: f_ for e_, f_ in (op[1] if k == "L" else cur)}
+        want_flow = {e_: f_ for e_, f_ in (op[1] if k in ("L", "FB") else cur)}
         if [pr.flow.get(eid, 0) for eid in eids] != [want_flow.get(eid, 0) for eid in eids]:
             fails.append(dict(clause="history-flow", detail="%s: the object's flow is %r, loaded %r" % (where(i), dict(pr.flow), want_flow)))
         if k in ("R", "S", "W"):
@@ -865,6 +1001,9 @@ def _oracle_hist(case):
         elif k == "L":
             cur = [list(x) for x in op[1]]
             built, borrowed = False, False
+        elif k == "FB":
+            cur = [list(x) for x in op[1]]
+            built, borrowed = True, False
         elif k == "W":
             built, borrowed = True, True
         if len(fails) >= 3:
@@ -896,11 +1035,16 @@ def _oracle_ana(case):
             res.append({x for x in mins if k is None or len(x) <= k})
         return res
     for i, (op, kind, an, net, computed, H) in enumerate(_ana_replay(case)):
-        have = sorted((sorted(e.reactants.to_dict().items()), sorted(e.products.to_dict().items())) for e in H.edges.values())
+        if case.get("gmode") == "bip":
+            have, have_sp = _graph_network(H)
+            have = [(list(a), list(b)) for a, b in have]
+        else:
+            have = sorted((sorted(e.reactants.to_dict().items()), sorted(e.products.to_dict().items())) for e in H.edges.values())
+            have_sp = sorted(H.species)
         pred = sorted((sorted((s, c) for s, c in l if c > 0), sorted((s, c) for s, c in r if c > 0)) for l, r in net["rxns"])
-        if have != pred or sorted(H.species) != _ana_species(net):
-            return [dict(clause="history-generator", detail="call %d: the hypergraph holds %r / species %r, the case predicted %r / %r"
-                         % (i, have, sorted(H.species), pred, _ana_species(net)))]
+        if [(list(map(tuple, a)), list(map(tuple, b))) for a, b in have] != [(list(a), list(b)) for a, b in pred] or have_sp != _ana_species(net):
+            return [dict(clause="history-generator", detail="call %d: the analysed object holds %r / species %r, the case predicted %r / %r"
+                         % (i, have, have_sp, pred, _ana_species(net)))]
         if kind == "err":
             if net["rxns"] and _ana_species(net):
                 fails.append(dict(clause="analyzer-history", detail="call %d: compute raised on a network with reactions %r" % (i, net["rxns"])))
@@ -1494,7 +1638,8 @@ def _rand_ops(rng, base, n):
         z = rng.random()
         if z < 0.36:
             b = rng.random()
-            ops.append(["R", None, None] if b < 0.75 else ["R", rng.randint(0, 12), None] if b < 0.9 else ["R", None, rng.randint(0, 6)])
+            ops.append(["R", None, None] if b < 0.7 else ["R", rng.randint(0, 12), None] if b < 0.85 else ["R", None, rng.randint(0, 6)]
+                       if b < 0.93 else ["R", rng.randint(0, 40), rng.randint(0, 8)])
         elif z < 0.62:
             ops.append(["S", rng.choice([0, 1, 2, 2, 3, 3, 4])])
         elif z < 0.78:
@@ -1510,12 +1655,13 @@ def _rand_ops(rng, base, n):
             else:
                 nf = [[e, max(0, f + rng.choice([-1, 0, 0, 1]))] for e, f in fl]
             fl = nf
-            ops.append(["L", nf])
+            ops.append(["L", nf] if rng.random() < 0.6 else ["FB", nf])
         else:
             ops.append(["W", 1])
     return ops
 
 
+HIST_INPLACE = [["B", "R", "F2", "R", "C"], ["B", "S", "F2", "R", "C"], ["S", "R", "F2", "C", "R"]]
 HIST_RETRY = [["B", "Rt", "R", "C"], ["B", "Rd", "R", "C", "Rt", "C"], ["B", "R", "Rt", "C", "R"], ["S", "Rd", "Rt", "R"], ["B", "Rt", "Rd", "C", "R", "C"]]
 HIST_PATTERNS = [
     ["B", "S", "R", "C"], ["S", "R"], ["B", "R", "S", "C", "R"], ["B", "S", "C", "S", "R"], ["S", "C", "R", "C"],
@@ -1529,7 +1675,7 @@ def _hist_ok(case):
     cur = case["flow"]
     flows = []
     for op in case["ops"]:
-        if op[0] == "L":
+        if op[0] in ("L", "FB"):
             cur = op[1]
         elif op[0] in ("R", "W"):
             flows.append((cur, 1))
@@ -1571,7 +1717,9 @@ def gen_histories(n, rng):
         for k in ("max_states", "max_depth", "via"):
             base.pop(k, None)
         pat = None
-        if base["kind"] == "hist-walk" and rng.random() < 0.5:
+        if base["kind"] == "hist-catalyst" and base.get("need") == 2 and rng.random() < 0.25:
+            pat = rng.choice(HIST_INPLACE)        # flow doubled IN PLACE then rebuilt: realizable from then on
+        elif base["kind"] == "hist-walk" and rng.random() < 0.5:
             pat = rng.choice(HIST_RETRY)          # the documented retry workflow: tight bounds first, then ample ones
         elif rng.random() < 0.55:
             pat = rng.choice(HIST_PATTERNS[-2:] + [["W", "R", "C"]] if base["kind"] == "hist-autocat" and rng.random() < 0.7
@@ -1594,6 +1742,9 @@ def gen_histories(n, rng):
                 elif o == "L2":
                     fl = [[e, 2 * f] for e, f in fl]
                     ops.append(["L", fl])
+                elif o == "F2":
+                    fl = [[e, 2 * f] for e, f in fl]
+                    ops.append(["FB", fl])
                 elif o == "W":
                     ops.append(["W", 1])
                 else:
@@ -1611,7 +1762,7 @@ ANA_PATTERNS = [["R", "C", "R", "E", "R", "C", "R"], ["C", "E", "C", "R"], ["C",
                 ["C", "R", "E", "C", "R", "E", "C", "R"]]
 
 
-def _ana_edit_stage(rng, net, more):
+def _ana_edit_stage(rng, net, more, keep_orphans=False):
     """one edit stage on the snapshot `net` (mutated to the predicted result): mostly edits that keep the reaction ids and the
     number of species; `more` = reactions still to be added"""
     import copy
@@ -1620,13 +1771,24 @@ def _ana_edit_stage(rng, net, more):
         z = rng.random()
         rx = net["rxns"]
         sp = _ana_species(net) or ["A"]
-        if z < 0.3 and more:
+        if z < 0.2 and more:
             l, r = more.pop(0)
             stage.append(["add", l, r])
-        elif z < 0.6 and rx:
+        elif z < 0.65 and rx:
             i = rng.randrange(len(rx))
-            pool = sp + [x for x in ("A", "B", "Q") if x not in sp][:1]
-            l, r = _rand_side(rng, pool, 2), _rand_side(rng, pool, 2)
+            if rng.random() < 0.6 and len(sp) >= 2:
+                # count-preserving: the same number of reactant and product incidences, over species that already exist
+                nl, nr = len(rx[i][0]), len(rx[i][1])
+                if rng.random() < 0.5:
+                    nl, nr = nr, nl                       # reactants and products change places
+                nl, nr = min(nl, len(sp)), min(nr, len(sp))
+                l = [[x, rng.randint(1, 2)] for x in rng.sample(sp, nl)]
+                r = [[x, rng.randint(1, 2)] for x in rng.sample(sp, nr)]
+                if sorted(map(tuple, l)) == sorted(map(tuple, rx[i][0])) and sorted(map(tuple, r)) == sorted(map(tuple, rx[i][1])):
+                    continue
+            else:
+                pool = sp + [x for x in ("A", "B", "Q") if x not in sp][:1]
+                l, r = _rand_side(rng, pool, 2), _rand_side(rng, pool, 2)
             if not l and not r:
                 continue
             stage.append(["rep", i, l, r])
@@ -1646,7 +1808,7 @@ def _ana_edit_stage(rng, net, more):
             stage.append(["rmsp", rng.choice(cand)])
         else:
             continue
-        _ana_apply_snapshot(net, [copy.deepcopy(stage[-1])])
+        _ana_apply_snapshot(net, [copy.deepcopy(stage[-1])], keep_orphans=keep_orphans)
     return stage
 
 
@@ -1663,26 +1825,30 @@ def gen_analyzer_histories(n, rng):
         more = [copy.deepcopy(r) for r in rx[len(first):]]
         stages = [first]
         net = dict(rxns=[[[list(x) for x in l], [list(x) for x in r]] for l, r in first], iso=[])
+        gmode = "bip" if (rng.random() < 0.5 and len(first) < 9) else None
         ok = True
         for _ in range(ne):
-            st = _ana_edit_stage(rng, net, more)
+            st = _ana_edit_stage(rng, net, more, keep_orphans=gmode == "bip")
             if not st:
                 ok = False
                 break
             stages.append(st)
         if not ok:
             continue
-        if rng.random() < 0.1:                        # nothing to analyse at first: compute raises, nothing may be stored
+        if gmode is None and rng.random() < 0.1:      # nothing to analyse at first: compute raises, nothing may be stored
             stages = [[]] + [[["add", l, r] for l, r in first]] + stages[1:]
             pat = ["C", "R", "E"] + pat
-        cases.append(dict(t="ana", kind="ana", stages=stages, k=rng.choice([None, None, 1, 2, 3]), ops=pat))
+        c = dict(t="ana", kind="ana", stages=stages, k=rng.choice([None, None, 1, 2, 3]), ops=pat)
+        if gmode:
+            c.update(gmode=gmode, gseed=rng.randrange(10 ** 6))
+        cases.append(c)
     return cases
 
 
 def gen_cases(tier, rng):
     cases = []
-    cases += gen_analyzer_histories(60 if tier == "quick" else 600, rng)
-    cases += gen_histories(150 if tier == "quick" else 1500, rng)
+    cases += gen_analyzer_histories(100 if tier == "quick" else 800, rng)
+    cases += gen_histories(200 if tier == "quick" else 1500, rng)
     cases += gen_exhaustive(tier, rng)
     for j, rx in enumerate(TEXTBOOK_NETS):
         for mode in ("hg", "bip", "und"):
